@@ -50,6 +50,35 @@ pub fn desugared_shape(source: &str) -> Result<String, String> {
     }
 }
 
+/// Holes written in term position that no directive replaces (`_`, or `@(m)` / `@[m] _` with a
+/// directive other than import / builtin / intrinsic / literal): such a hole is accepted by design
+/// ("like undefined") and stops the interpreter when evaluated. Holes in type position count too
+/// (the surface syntax does not tell them apart); `None` when the text does not parse.
+pub fn written_holes(source: &str) -> Option<usize> {
+    use zydeco_surface::textual::syntax::Term;
+    use zydeco_syntax::{Meta, MetaT};
+    catch(|| {
+        let mut parser = Parser::new();
+        SourceUnitParser::new().parse(source, &LocationCtx::Plain, &mut parser, Lexer::new(source)).ok()?;
+        let mut replaced = std::collections::HashSet::new();
+        for (_, term) in parser.arena.terms.iter() {
+            if let Term::Meta(MetaT(meta, inner)) = term {
+                let head = match meta {
+                    | Meta::Ident(s) => s.as_str(),
+                    | Meta::Apply { callee, .. } => callee.as_str(),
+                    | _ => "",
+                };
+                if ["import", "builtin", "intrinsic", "literal"].contains(&head) {
+                    replaced.insert(*inner);
+                }
+            }
+        }
+        Some(parser.arena.terms.iter().filter(|(id, term)| matches!(term, Term::Hole(_)) && !replaced.contains(id)).count())
+    })
+    .ok()
+    .flatten()
+}
+
 const KEYWORDS: [&str; 21] = [
     "end", "begin", "data", "codata", "as", "def", "define", "let", "param", "in", "that", "do", "ret", "fn",
     "pi", "fix", "match", "comatch", "forall", "sigma", "exists",
@@ -181,8 +210,13 @@ pub fn strip_block_indent(source: &str) -> String {
 pub fn glued_line_comments(input: &str, output: &str) -> (Vec<String>, String) {
     let mut glued = Vec::new();
     let mut repaired = output.to_string();
+    let continues_a_name = |c: char| c.is_alphanumeric() || matches!(c, '_' | '\'' | '-');
     for it in items(input) {
         if let Item::Comment('L', text) = it {
+            // written that way in the input already (`3-- c` lexes as a number and a comment)
+            if input.match_indices(text.as_str()).any(|(at, _)| input[..at].chars().next_back().is_some_and(continues_a_name)) {
+                continue;
+            }
             let mut from = 0usize;
             while let Some(off) = repaired[from..].find(&text) {
                 let at = from + off;
